@@ -66,7 +66,11 @@ CHECKS['C19'] = dict(level='exploration', ref='DESIGN.md 3.4, 6 (C19)',
    text='DjangoTrace.tla states the contract on top of the CacheOps operators: made keys prefix:version:key, timeout mapping (DEFAULT -> backend TIMEOUT, None forever, 0/negative already expired), add/get/set/touch/delete/incr/decr(ValueError)/has_key/get_many/set_many/delete_many/get_or_set/incr_version/decr_version/pop/clear. '
         'Random call sequences under a virtual clock over keys x versions x timeout classes x backend TIMEOUT/KEY_PREFIX/VERSION/SHARDS are validated by TLC (return values); the same plans through Django\'s own LocMemCache validate the spec\'s reading of the contract (a disagreement there is a machinery failure, not a violation).',
    technique='trace validation by TLC against a TLA+ statement of the Django cache contract, cross-checked against LocMemCache')
-NOTES = {'C19': SEQ_NOTE + ' Return values the contract leaves open (set, delete_many, clear, delete of an expired item) are not compared.', 'C13': SEQ_NOTE + ' Aggregate operations under lock timeouts (FanoutCache._remove resuming after Timeout) are only covered with one shard (C14).', 'C11': CONC_NOTE, 'C12': CONC_NOTE + ' No exhaustive TLC exploration of the Index composition yet (level exploration).', 'C14': CONC_NOTE, 'C07': 'Trusted: SQLite atomic commit / WAL recovery and release of the write lock on process death; kill points are the boundary events of the victim (before each statement, file create/write/close/remove, directory create/remove); the lazy cull of writes is switched off in kill workloads (not observable per call). Deque/Index workloads are killed in C11/C12.', 'C08': CONC_NOTE + ' Faults are not injected into COMMIT/ROLLBACK (SQLite atomic commit trusted) nor into file removal (removing an existing file is assumed to succeed).', 'C05': CONC_NOTE, 'C06': CONC_NOTE, 'C03': SEQ_NOTE, 'C04': SEQ_NOTE, 'C09': SEQ_NOTE, 'C10': SEQ_NOTE}
+CHECKS['C15'] = dict(level='model_checking', ref='DESIGN.md 3.6, 6 (C15)',
+   text='Locks.tla models Lock (spin on atomic add / delete), RLock ((owner,count) read-modify-write in a transaction) and BoundedSemaphore at the granularity of atomic cache operations (justified by C05/C06); TLC checks MutualExclusion, SemBound, RLockOwner, FreeWhenNoHolder and, under fairness, that every contender completes its rounds (3 contenders x 2 rounds, nesting 2, value 2). '
+        'The real recipes run on threads (shared / own Cache and FanoutCache objects) under the scheduler: all schedules up to 2 preemptions of 2-3 contender programs, PCT/random for 2-4 contenders, barrier, extra releases, and an RLock built before fork released by the child; witness events enter/exit are validated by TLC (LocksTrace.tla).',
+   technique='TLA+ lock protocols model-checked by TLC (safety + liveness); scheduler-enumerated executions of the real recipes validated by TLC')
+NOTES = {'C15': CONC_NOTE + ' Contenders in separate processes only in the fork scenario.', 'C19': SEQ_NOTE + ' Return values the contract leaves open (set, delete_many, clear, delete of an expired item) are not compared.', 'C13': SEQ_NOTE + ' Aggregate operations under lock timeouts (FanoutCache._remove resuming after Timeout) are only covered with one shard (C14).', 'C11': CONC_NOTE, 'C12': CONC_NOTE + ' No exhaustive TLC exploration of the Index composition yet (level exploration).', 'C14': CONC_NOTE, 'C07': 'Trusted: SQLite atomic commit / WAL recovery and release of the write lock on process death; kill points are the boundary events of the victim (before each statement, file create/write/close/remove, directory create/remove); the lazy cull of writes is switched off in kill workloads (not observable per call). Deque/Index workloads are killed in C11/C12.', 'C08': CONC_NOTE + ' Faults are not injected into COMMIT/ROLLBACK (SQLite atomic commit trusted) nor into file removal (removing an existing file is assumed to succeed).', 'C05': CONC_NOTE, 'C06': CONC_NOTE, 'C03': SEQ_NOTE, 'C04': SEQ_NOTE, 'C09': SEQ_NOTE, 'C10': SEQ_NOTE}
 
 checks = []
 for pid, c in sorted(CHECKS.items()):
